@@ -253,6 +253,7 @@ def use_rules(ctx, ci, Gd, myH, n, k, d, is_hamming):
 
     res = explore(run_chk)
     accept = []
+    accept_diseq = []
     excluded = []
     for st, (kind, v) in res:
         if kind == "abort":
@@ -261,6 +262,7 @@ def use_rules(ctx, ci, Gd, myH, n, k, d, is_hamming):
             continue
         I3.st = st
         cons = []
+        path_diseq = []
         for key, const, eq in st.eqs:
             if not eq:
                 # the path has excluded one value of some bits (`if not word.any(): return False`): on an accepting path that
@@ -270,6 +272,7 @@ def use_rules(ctx, ci, Gd, myH, n, k, d, is_hamming):
                 w = len(key)
                 if w == n and all(isinstance(f, F) and f == I3.atom_form(("w", i)) for i, f in enumerate(key)):
                     word = [(const >> (w - 1 - i)) & 1 for i in range(w)]
+                    path_diseq.append(word)
                     if all(sum(h * b for h, b in zip(row, word)) % 2 == 0 for row in myH):
                         excluded.append("".join(map(str, word)))
                     continue
@@ -279,9 +282,11 @@ def use_rules(ctx, ci, Gd, myH, n, k, d, is_hamming):
                 cons.append(f ^ ((const >> (w - 1 - i)) & 1))
         if v is True:
             accept.append(cons)
+            accept_diseq.append(path_diseq)
         elif isinstance(v, ACond) and v.kind == "eqseq":
             a, b = v.parts
             accept.append(cons + [x ^ y for x, y in zip(a.items, b.items)])
+            accept_diseq.append(path_diseq)
         elif v is False or (isinstance(v, ACond) and v.kind == "not"):
             if isinstance(v, ACond):
                 raise AnalysisError(f"{chk.qualname}: negated structural condition not modelled")
@@ -296,10 +301,39 @@ def use_rules(ctx, ci, Gd, myH, n, k, d, is_hamming):
             if h:
                 acc = acc ^ wforms[i]
         syn.append(acc)
-    if len(accept) != 1:
-        okc, detail = (False, "check accepts nothing") if not accept else (None, "")
-        if okc is None:
-            raise AnalysisError(f"{chk.qualname}: {len(accept)} accepting paths (only a single conjunction of linear conditions is modelled)")
+    if not accept:
+        okc, detail = False, "check accepts nothing"
+    elif len(accept) > 1:
+        # several accepting paths (special cases, early returns): the paths are disjoint, each accepts an affine set minus the
+        # single words its path has excluded; every such set must lie in the code and their sizes must add up to 2^k
+        total, outside = 0, []
+        for cons_i, dq_i in zip(accept, accept_diseq):
+            if any(not isinstance(c, F) for c in cons_i):
+                raise AnalysisError(f"{chk.qualname}: opaque acceptance condition")
+            r_h = alg.gf2_rank([f.m for f in cons_i])
+            if lin_rank(cons_i) != r_h:
+                continue                                   # contradictory conditions: the path accepts nothing
+            if lin_rank(cons_i + syn) != lin_rank(cons_i):
+                outside.append(f"a path accepts words outside the code (its {len(cons_i)} conditions do not imply H*w = 0)")
+            size = 1 << (n - r_h)
+            seen_w = set()
+            for word in dq_i:
+                asg = {i: b for i, b in enumerate(word)}
+                sat = True
+                for f in cons_i:
+                    val = f.c
+                    for a_ in f.atoms():
+                        nm = I3.atoms.names[a_]
+                        val ^= asg[nm[1]] if isinstance(nm, tuple) and nm[0] == "w" else 0
+                    if val:
+                        sat = False
+                        break
+                if sat and tuple(word) not in seen_w:
+                    seen_w.add(tuple(word))
+                    size -= 1
+            total += size
+        okc = not outside and total == (1 << k)
+        detail = (f"{len(accept)} accepting paths accept {total} words in all (the code has 2^{k} = {1 << k}); " + ("; ".join(outside[:2]) if outside else ("exactly the codewords" if okc else "the accepted set is NOT the code")))
     else:
         cons = [c for c in accept[0] if isinstance(c, F)]
         if len(cons) != len(accept[0]):
@@ -366,21 +400,26 @@ def use_rules(ctx, ci, Gd, myH, n, k, d, is_hamming):
         n_runs += 1
         if any(kd == "abort" for _, (kd, _) in res):
             raise AnalysisError(f"{ci.qualname}.check_and_correct, error pattern {pat}: " + "; ".join(f"{kd}:{vv}" for _, (kd, vv) in res)[:200])
-        if len(res) != 1 or res[0][1][0] != "ok":
-            bad.append((pat, "paths: " + "; ".join(f"{kd}:{vv}" for _, (kd, vv) in res)[:120]))
+        if not res or any(kd != "ok" for _, (kd, _) in res):
+            bad.append((pat, "paths: " + "; ".join(f"{kd}:{vv}" for _, (kd, vv) in res if kd != "ok")[:120]))
             continue
-        cw, r, arg = res[0][1][1]
-        if not (isinstance(r, tuple) and len(r) == 2):
-            bad.append((pat, f"returns {r!r}"))
-            continue
-        status, word = r
-        wbits = I6.simp_bits(Frame_bits(word)) if isinstance(word, (ABits,)) else None
-        if len(pat) <= 1:
-            if status is not True or wbits != cw:
-                bad.append((pat, f"status={status!r}, word {'restored' if wbits == cw else 'NOT the original codeword'}"))
-        else:
-            if status is not False:
-                bad.append((pat, f"double error reported as status={status!r}" + (" and mis-repaired" if wbits != cw else "")))
+        # the code may take several routes depending on the message (special cases): every path is judged, modulo what it knows
+        for st6, (_, (cw, r, arg)) in res:
+            I6.st = st6
+            if not (isinstance(r, tuple) and len(r) == 2):
+                bad.append((pat, f"returns {r!r}"))
+                break
+            status, word = r
+            wb = Frame_bits(word) if isinstance(word, (ABits,)) else None
+            same = wb is not None and len(wb) == len(cw) and all(isinstance(I6.simp(x ^ y), F) and I6.simp(x ^ y).is_const and I6.simp(x ^ y).c == 0 for x, y in zip(wb, cw))
+            if len(pat) <= 1:
+                if status is not True or not same:
+                    bad.append((pat, f"status={status!r}, word {'restored' if same else 'NOT the original codeword'}" + (f" on path {st6.labels[-1:]}" if len(res) > 1 else "")))
+                    break
+            else:
+                if status is not False:
+                    bad.append((pat, f"double error reported as status={status!r}" + (" and mis-repaired" if not same else "")))
+                    break
     ctx.ob("use/correct", q, not bad,
            f"{n_runs} error patterns (none, all {n} single" + (f", all {n * (n - 1) // 2} double" if d >= 4 else "") + f") analysed for all 2^{k} messages at once; failing: {bad[:4]}", cac.loc)
 
